@@ -45,6 +45,27 @@ pub fn intercept() -> bool {
         Some("replay") => cmd_replay(&args[3..]),
         Some("gen") => cmd_gen(&args[3..]),
         Some("bench-spawn") => cmd_bench_spawn(&args[3..]),
+        Some("leaktest") => {
+            let src = "let zzbig = array(300000, 0);\nlet o = object begin let a = 1; function m() -> 1; end;\nprint(\"~\\n\", o)\n";
+            let rss = || std::fs::read_to_string("/proc/self/statm").ok().and_then(|s| s.split_whitespace().nth(1).and_then(|x| x.parse::<u64>().ok())).unwrap_or(0) * 4;
+            let which = args.get(3).map(|s| s.as_str()).unwrap_or("run").to_string();
+            println!("start rss={} KB", rss());
+            for round in 0..5 {
+                for _ in 0..2000 {
+                    match which.as_str() {
+                        "compile" => { let _ = vm::compile_source(src); }
+                        "parsenew" => { let _ = crate::fml::TopLevelParser::new().parse(src); }
+                        "newonly" => { let _ = crate::fml::TopLevelParser::new(); }
+                        "gen" => { let mut rng = util::Rng::from_u64(round); let cfg = gen::GenCfg::swarm(&mut rng); let _ = gen::generate(&mut rng, &cfg); }
+                        "crumb" => { util::breadcrumb("C16", serde_json::json!({"kind": "x", "program": src})); }
+                        "scratch" => { let d = proc::scratch_dir(); let _ = std::fs::remove_dir_all(&d); }
+                        _ => { let p = vm::compile_source(src).unwrap(); let _ = vm::run(&p, &vm::RunCfg::default()); }
+                    }
+                }
+                println!("{} round {} rss={} KB", which, round, rss());
+            }
+            0
+        }
         Some("selftest-digest") => {
             need_shim();
             let n = arg_value(&args[3..], "--n").and_then(|s| s.parse().ok()).unwrap_or(2000usize);
